@@ -292,7 +292,7 @@ def step (D : Dataset) : List String → Dataset × String
     | _, _ => (D, "bad-op")
   | "model" :: nn :: rest =>
     match nn.toNat?, (parseSX (tokenize (" ".intercalate rest))).bind query? with
-    | some n, some q => (D, showResult (Model.evalQuery (n := n) D q))
+    | some n, some q => (D, showResult (Model.evalQuery (n := n) (fun k => Term.fresh k 0) D q))
     | _, _ => (D, "bad-op")
   | "safe" :: rest =>
     match (parseSX (tokenize (" ".intercalate rest))).bind query? with
